@@ -3,6 +3,7 @@
 package referenceserver
 
 import (
+	"encoding/binary"
 	"bytes"
 	"context"
 	"crypto/tls"
@@ -565,6 +566,9 @@ type vfBBCase struct {
 	Expected vfSetup `json:"expected"`
 	Actual   vfSetup `json:"actual"` // only fields a plain client controls: Get, Codec, Compression header
 	Timeout  string  `json:"timeout"`
+	// Bidi: the request is a (half-duplex) call of the BidiStream procedure with a streaming content type;
+	// over HTTP/1.1 the server has to special-case it for the RPC library, which must not disturb the checks
+	Bidi bool `json:"bidi"`
 }
 
 var (
@@ -612,7 +616,22 @@ func vfBBCheck(c vfBBCase) error {
 		body, _ = proto.Marshal(msg)
 	}
 	var req *http.Request
-	if actual.Get {
+	if c.Bidi {
+		actual.Get, actual.StreamCT = false, true
+		path = "/connectrpc.conformance.v1.ConformanceService/BidiStream"
+		if actual.Codec == 2 {
+			body = []byte(`{"requestData":"YmI="}`)
+		} else {
+			body, _ = proto.Marshal(&conformancev1.BidiStreamRequest{RequestData: []byte("bb")})
+		}
+		env := make([]byte, 5, 5+len(body))
+		binary.BigEndian.PutUint32(env[1:], uint32(len(body)))
+		req, _ = http.NewRequest(http.MethodPost, "http://"+srv.addr+path, bytes.NewReader(append(env, body...)))
+		req.Header.Set("Content-Type", "application/connect+"+vfCodecName[actual.Codec])
+		if !actual.ImplicitID {
+			req.Header.Set("Connect-Content-Encoding", "identity")
+		}
+	} else if actual.Get {
 		path = "/connectrpc.conformance.v1.ConformanceService/IdempotentUnary"
 		q := url.Values{}
 		q.Set("encoding", vfCodecName[actual.Codec])
@@ -699,7 +718,7 @@ func vfBBCheck(c vfBBCase) error {
 		return verifkit.Violf("bb-match-flagged:other", "everything matches but the server reported: %q", other)
 	}
 	// echoed timeout
-	if resp.StatusCode == 200 && c.Expected.Protocol == 1 {
+	if resp.StatusCode == 200 && c.Expected.Protocol == 1 && !c.Bidi {
 		out := &conformancev1.UnaryResponse{}
 		var uerr error
 		if actual.Codec == 2 {
@@ -746,12 +765,16 @@ func TestVerifC12BlackBox(t *testing.T) {
 		Gen: func(t *rapid.T) vfBBCase {
 			c := vfBBCase{H2: rapid.Bool().Draw(t, "h2")}
 			c.Actual = vfSetup{Codec: rapid.IntRange(1, 2).Draw(t, "codec"), Get: rapid.Bool().Draw(t, "get"), ImplicitID: rapid.Bool().Draw(t, "implicit")}
+			c.Bidi = rapid.IntRange(0, 3).Draw(t, "bidi") == 0
+			if c.Bidi {
+				c.Actual.Get = false
+			}
 			version := 1
 			if c.H2 {
 				version = 2
 			}
 			if rapid.Bool().Draw(t, "matching") {
-				c.Expected = vfSetup{Version: version, Protocol: 1, Codec: c.Actual.Codec, Compression: 1, Get: c.Actual.Get}
+				c.Expected = vfSetup{Version: version, Protocol: 1, Codec: c.Actual.Codec, Compression: 1, Get: c.Actual.Get, StreamCT: c.Bidi}
 			} else {
 				c.Expected = rapid.SampledFrom(setups).Draw(t, "expected")
 			}
@@ -769,9 +792,13 @@ func TestVerifC12BlackBox(t *testing.T) {
 			if c.H2 {
 				version = 2
 			}
-			actual := vfSetup{Version: version, Protocol: 1, Codec: c.Actual.Codec, Compression: 1, Get: c.Actual.Get}
+			actual := vfSetup{Version: version, Protocol: 1, Codec: c.Actual.Codec, Compression: 1, Get: c.Actual.Get && !c.Bidi, StreamCT: c.Bidi}
 			n := len(vfMismatches(c.Expected, actual))
-			return []string{fmt.Sprintf("mismatching-aspects:%d", n)}, n == 1 || n == 2 || c.Timeout != ""
+			cl := []string{fmt.Sprintf("mismatching-aspects:%d", n)}
+			if c.Bidi {
+				cl = append(cl, fmt.Sprintf("bidi-over-http%d", version))
+			}
+			return cl, n == 1 || n == 2 || c.Timeout != "" || c.Bidi
 		},
 	})
 }
